@@ -1,10 +1,10 @@
 package rules
 
 import (
-	"sort"
 	"fmt"
 	"go/token"
 	"go/types"
+	"sort"
 	"strings"
 
 	"golang.org/x/tools/go/ssa"
@@ -55,6 +55,10 @@ func c02(c *Ctx) (*report.Result, error) {
 	checkNoDerefOfKnownNil(c, res, "O2.11", []string{"proxy/proxy_streams.go", "proxy/intra_proxy_router.go", "proxy/shard_manager.go", "proxy/admin_stream_transfer.go"}, 40)
 	res.RuleDoc["O2.12"] = "the watermark replay cannot block the registration of the target it replays to: in both sendPendingWatermarkToShard implementations the blocking DeliverMessagesToShardOwner is reached only when GetRemoteSendChan(target) found no local channel, and the function's own channel sends are selects with a default arm - the replay runs inside RegisterShard, before the registering sender drains its channel"
 	checkReplayNeverBlocksRegistration(c, res, "O2.12")
+	res.RuleDoc["O2.13"] = "the hand-over result is truthful in both directions: DeliverMessagesToShardOwner returns true only after the send arm of the guarded select fired or the intra-proxy send returned nil, and the hand-over itself is the function's own select, not something left running after the result was reported (same analysis as O9.1) - the receiver retries what was reported undelivered and never retries what was reported delivered, so a wrong result is a task delivered twice or not at all"
+	if f := resolve(c, res, "O2.13", anchor{"proxy", "*shardManagerImpl", "DeliverMessagesToShardOwner"}); f != nil {
+		checkDeliver(c, res, f, "DeliverMessagesToShardOwner", "GetRemoteSendChan", "sendReplicationMessages", "O2.13")
+	}
 	checkNoSwallowedErrors(c, res, "O2.7", []string{"proxy/proxy_streams.go", "proxy/shard_manager.go"})
 	res.RuleDoc["O2.8"] = "relay loops pass every message on: in every loop that takes messages from a stream or channel and forwards them, no path from the take to the next take avoids every stream Send / channel send / Deliver*ToShardOwner (a forwarding loop that runs zero times, the wrong-kind edges of a type assertion and a return that ends the stream are not bypasses; the ack aggregator sendAck is the reviewed exception)"
 	checkRelayLoops(c, res, "O2.8", []string{"proxy/proxy_streams.go", "proxy/intra_proxy_router.go"}, 5)
@@ -822,6 +826,8 @@ func c04(c *Ctx) (*report.Result, error) {
 	} else if err != nil {
 		res.Undec("O4.15", "keep-alive obligations of O3.4", "", err.Error())
 	}
+	res.RuleDoc["O4.16"] = "an acknowledgement forwarded between proxy nodes travels on the stream of its own (target shard, source shard) pair (same analysis as O1.9 / O9.4): the owner of the source shard credits an incoming ack to the target of the stream it arrives on, so an ack that falls back to another target's stream - the natural shortcut when its own stream has just broken - is credited to a target that has not confirmed, and the aggregate then acknowledges that target's unconfirmed tasks"
+	checkIntraSenders(c, res, "O4.16")
 	res.RuleDoc["O4.10"] = "no swallowed error in the files the mechanism lives in: no function returns a nil error on a path on which an error obtained from a call is known to be non-nil (io.EOF from a stream Recv, the normal end of a receive loop, is the one accepted idiom)"
 	checkNoSwallowedErrors(c, res, "O4.10", []string{"proxy/proxy_streams.go", "proxy/admin_stream_transfer.go", "proxy/shard_manager.go"})
 	res.RuleDoc["O4.11"] = "relay loops pass every message on: in every loop that takes messages from a stream or channel and forwards them, no path from the take to the next take avoids every stream Send / channel send / Deliver*ToShardOwner (a forwarding loop that runs zero times, the wrong-kind edges of a type assertion and a return that ends the stream are not bypasses; the ack aggregator sendAck is the reviewed exception)"
